@@ -70,8 +70,10 @@ def run(ctx):
     # 3. spec -> implementation: materialise the graphs as real change commits and present them
     #    through many reference assignments.
     if thorough:
-        todo = [("issue", cases[0] + cases[1]), ("patch", rnd.sample(cases[0], 1200) + rnd.sample(cases[1], 1200))]
-        exhaustive = True   # every emitted case of both enumerations is replayed (issues)
+        # the whole root+3 space, a sample of the emitted root+4 graphs
+        todo = [("issue", cases[0] + rnd.sample(cases[1], 20000)), ("patch", rnd.sample(cases[0], 1000) + rnd.sample(cases[1], 1000))]
+        exhaustive = False
+        ctx.cov["replay_exhaustive_for_root_plus_3_changes"] = True
     else:
         todo = [("issue", rnd.sample(cases[0], 1500)), ("patch", rnd.sample(cases[0], 200))]
         exhaustive = False
